@@ -755,13 +755,17 @@ def check_truncate_simulation(ctx, T):
     SINGLE = TT(('Literal', 'String', 'Single'))
     NAME = TT(('Name',))
     units = ['a', 'b', "''", "\\'", ' ']
+    # what the lexer can put in front of the opening quote of a String.Single token (N'..', E'..', U&'..' in some dialects)
+    prefixes = [''] + [px for px in ('N', 'n', 'E', 'B', 'X', 'x', 'U&', 'R', 'b', '_utf8') if T.lex_one(px + "'ab' x", 0)[1] == len(px) + 4 and T.lex_one(px + "'ab' x", 0)[2] == SINGLE]
+    ctx.info['string_literal_prefixes'] = prefixes
     lits = []
-    for n_ in range(0, 6):
-        for p in itertools.product(units, repeat=n_):
-            v = "'" + ''.join(p) + "'"
-            r, end, tt = T.lex_one(v, 0)
-            if end == len(v) and tt == SINGLE:
-                lits.append((p, v))
+    for px in prefixes:
+        for n_ in range(0, 6 if px == '' else 4):
+            for p in itertools.product(units, repeat=n_):
+                v = px + "'" + ''.join(p) + "'"
+                r, end, tt = T.lex_one(v, 0)
+                if end == len(v) and tt == SINGLE:
+                    lits.append((p, v))
     ctx.need(len(lits) >= 500, f'only {len(lits)} literals over the unit alphabet are single String.Single tokens')
     marker = '[...]'
     bad, n = {}, 0
@@ -781,7 +785,9 @@ def check_truncate_simulation(ctx, T):
                 bad.setdefault('crash', []).append(f'{v} width {width}: {e}')
                 continue
             n += 1
-            body = v[1:-1]
+            q0 = v.index("'")
+            px = v[:q0]
+            body = v[q0 + 1:-1]
             nunits = len(p)
             why = None
             if len(out) != 2 or out[1] != (NAME, 'x') or out[0][0] != SINGLE:
@@ -795,7 +801,7 @@ def check_truncate_simulation(ctx, T):
             elif len(body) <= width and o != v:
                 why = 'a literal that fits is changed'
             elif o != v:
-                core = o[1:-(len(marker) + 1)] if o.endswith(marker + "'") and o.startswith("'") else None
+                core = o[len(px) + 1:-(len(marker) + 1)] if o.endswith(marker + "'") and o.startswith(px + "'") else None
                 if core is None or not body.startswith(core) or len(core) > width:
                     why = 'the result is not quote + first characters + marker + quote'
             elif len(body) > width + len(marker) + 2 and nunits > width:
